@@ -205,3 +205,44 @@ brk("c10-merge-skips-short", ["C10"], (CACHE, "            if len(k) == 0:\n    
 brk("c10-merge-wrong-value", ["C10"], (CACHE, "            self.add_cache_slot(k, cache_dict[k])", "            self.add_cache_slot(k, cache_dict[k][:0xFFFF])"))
 ben("c10-int-roundup", ["C10"], (CACHE, "rounded_up_size = math.ceil(len(data) / self.eb_size) * self.eb_size", "rounded_up_size = ((len(data) + self.eb_size - 1) // self.eb_size) * self.eb_size"))
 ben("c10-rename", ["C10"], (CACHE, "padded_data", "out", "all"))
+
+# ------------------------------------------------------------------ C11 extraction
+brk("c11-get-not-pop", ["C11"], (CACHE, "cache.add_cache_slot(payload, envelope.value.pop(payload))", "cache.add_cache_slot(payload, envelope.value.get(payload))"))
+brk("c11-match-not-fullmatch", ["C11"], (CACHE, "payloads_to_extract = [k for k in integrated if re.fullmatch(omit_payload_regex, k) is None]", "payloads_to_extract = [k for k in integrated if re.match(omit_payload_regex, k) is None]"))
+brk("c11-omit-inverted", ["C11"], (CACHE, "payloads_to_extract = [k for k in integrated if re.fullmatch(omit_payload_regex, k) is None]", "payloads_to_extract = [k for k in integrated if re.fullmatch(omit_payload_regex, k) is not None]"))
+brk("c11-dep-not-removed", ["C11"], (CACHE, "            for dep in integrated_dependencies:\n                integrated.remove(dep)\n", ""))
+brk("c11-dep-not-stored-back", ["C11"], (CACHE, "            envelope.value[dependency] = new_dependency_data\n", ""))
+brk("c11-dep-wrong-patterns", ["C11"], (CACHE, "                    cache, envelope.value[dependency], omit_payload_regex, dependency_regex\n", "                    cache, envelope.value[dependency], omit_payload_regex, None\n"))
+brk("c11-slot-key-lower", ["C11"], (CACHE, "cache.add_cache_slot(payload, envelope.value.pop(payload))", "cache.add_cache_slot(payload.lower(), envelope.value.pop(payload))"))
+brk("c11-drop-auth-when-empty", ["C11"], (CACHE, "        return cbor2.dumps(envelope)\n\n    def fill_cache_from_envelope(", "        if not payloads_to_extract:\n            envelope.value.pop(23, None)\n        return cbor2.dumps(envelope)\n\n    def fill_cache_from_envelope("))
+brk("c11-bytes-keys-too", ["C11"], (CACHE, "integrated = [k for k in envelope.value.keys() if isinstance(k, str)]", "integrated = [k for k in envelope.value.keys() if isinstance(k, (str, bytes))]"))
+brk("c11-extract-replace-other-name", ["C11"], (PEX, "            envelope.value[payload_name] = fh.read()", "            envelope.value[payload_name.strip()] = fh.read()"))
+brk("c11-extract-truncated", ["C11"], (PEX, "            fh.write(extracted_payload)", "            fh.write(extracted_payload[:65536])"))
+brk("c11-extract-get", ["C11"], (PEX, "extracted_payload = envelope.value.pop(payload_name, None)", "extracted_payload = envelope.value.get(payload_name, None)"))
+brk("c11-extract-text-replace", ["C11"], (PEX, '        with open(payload_replace_path, "rb") as fh:\n            envelope.value[payload_name] = fh.read()', '        with open(payload_replace_path, "r") as fh:\n            envelope.value[payload_name] = fh.read().encode()'))
+brk("c11-unfix-frozen", ["C11"], (PEX, "    envelope = cbor2.CBORTag(envelope.tag, dict(envelope.value))\n", ""))
+brk("c11-main-swap", ["C11"], (CACHE, '            kwargs["omit_payload_regex"],\n            kwargs["dependency_regex"],', '            kwargs["dependency_regex"],\n            kwargs["omit_payload_regex"],'))
+ben("c11-is-not-none", ["C11"], (CACHE, "integrated_dependencies = [k for k in integrated if not re.fullmatch(dependency_regex, k) is None]", "integrated_dependencies = [k for k in integrated if re.fullmatch(dependency_regex, k) is not None]"))
+
+# ------------------------------------------------------------------ C09 signing policy
+brk("c09-skip-still-signs", ["C09"], (SIGN, "        if self._skip_signing:\n            return self.envelope\n", ""))
+brk("c09-skip-checked-late", ["C09"], (SIGN, "        if self._skip_signing:\n            return self.envelope\n        protected = {", "        protected = {"),
+    (SIGN, "        self.add_signature(signature, protected=protected)\n        return self.envelope", "        if self._skip_signing:\n            return self.envelope\n        self.add_signature(signature, protected=protected)\n        return self.envelope"))
+brk("c09-flag-not-reset", ["C09"], (SIGN, "        self._skip_signing = False\n", ""))
+brk("c09-remove-old-not-stored", ["C09"], (SIGN, "                    auth_block.remove(auth)\n                    self.envelope.value[SuitIds.SUIT_AUTHENTICATION_WRAPPER.value] = cbor2.dumps(auth_block)", "                    auth_block.remove(auth)"))
+brk("c09-remove-old-sets-skip", ["C09"], (SIGN, "                    auth_block.remove(auth)\n", "                    auth_block.remove(auth)\n                    self._skip_signing = len(auth_block) > 2\n"))
+brk("c09-error-after-remove", ["C09"], (SIGN, '                if action == SignatureAlreadyPresentActions.ERROR:\n                    raise SignerError("The envelope has already been signed and already-signed-action is set to error.")', '                if action == SignatureAlreadyPresentActions.ERROR:\n                    self.envelope.value[SuitIds.SUIT_AUTHENTICATION_WRAPPER.value] = cbor2.dumps(auth_block[:1])\n                    raise SignerError("The envelope has already been signed and already-signed-action is set to error.")'))
+brk("c09-detect-tag-98", ["C09"], (SIGN, "auth_deserialized.tag == 18:", "auth_deserialized.tag == 98:"))
+brk("c09-key-check-prefix", ["C09"], (KMS, 'return f"es-{private_key.key_size}" == algorithm', 'return algorithm.startswith("es-")'))
+brk("c09-key-check-ed-any", ["C09"], (KMS, 'return "eddsa" == algorithm or "hash-eddsa" == algorithm', 'return "eddsa" in algorithm or algorithm == "es-256"'))
+brk("c09-key-check-not-enforced", ["C09"], (KMS, "        if not self._verify_signing_key_type(private_key, algorithm):\n            raise ValueError(f\"Key {key_file_name} is not compatible with algorithm {algorithm}\")\n", "        self._verify_signing_key_type(private_key, algorithm)\n"))
+brk("c09-child-gets-parent-key", ["C09"], (SIGNCMD, "            self.key_name,\n            self.key_id,\n            self.alg,", "            self.key_name,\n            self.key_id if self.dependencies else 0,\n            self.alg,"))
+brk("c09-child-config-of-parent", ["C09"], (SIGNCMD, '                        envelope_json["dependencies"][dep],\n', '                        envelope_json,\n'))
+brk("c09-store-under-other-name", ["C09"], (SIGNCMD, "self.envelope.value[dep.envelope_name] = cbor2.dumps(dep.recursive_sign())", "self.envelope.value[dep.envelope_name.lstrip('#')] = cbor2.dumps(dep.recursive_sign())"))
+brk("c09-sign-before-deps", ["C09"], (SIGNCMD, "        for dep in self.dependencies:\n            self.envelope.value[dep.envelope_name] = cbor2.dumps(dep.recursive_sign())\n        if not self.omit_signing:\n            self._sign()\n", "        if not self.omit_signing:\n            self._sign()\n        for dep in self.dependencies:\n            self.envelope.value[dep.envelope_name] = cbor2.dumps(dep.recursive_sign())\n"))
+brk("c09-omit-skips-deps", ["C09"], (SIGNCMD, "        for dep in self.dependencies:\n            self.envelope.value[dep.envelope_name] = cbor2.dumps(dep.recursive_sign())\n        if not self.omit_signing:\n            self._sign()\n", "        if not self.omit_signing:\n            for dep in self.dependencies:\n                self.envelope.value[dep.envelope_name] = cbor2.dumps(dep.recursive_sign())\n            self._sign()\n"))
+brk("c09-dep-type-unchecked", ["C09"], (SIGNCMD, "        if not isinstance(dependency_envelope, cbor2.CBORTag):\n            raise ValueError(f\"Dependency {dependency_name} in {self.envelope_name} is not a valid envelope.\")\n", ""))
+brk("c09-unfix-key-read", ["C09"], (SIGNCMD, '        self.key_name = envelope_json.get("key-name")', '        self.key_name = envelope_json["key-name"]'))
+brk("c09-main-writes-first", ["C09"], (SIGNCMD, '    envelope = load_envelope(kwargs["input_envelope"])\n', '    envelope = load_envelope(kwargs["input_envelope"])\n    save_envelope(kwargs["output_envelope"], envelope)\n'))
+brk("c09-main-swallows", ["C09"], (SIGNCMD, '        envelope = single_level_sign(envelope, **kwargs)\n', '        try:\n            envelope = single_level_sign(envelope, **kwargs)\n        except Exception:\n            pass\n'))
+ben("c09-key-read-guarded", ["C09"], (SIGNCMD, '        self.key_name = envelope_json.get("key-name")', '        self.key_name = envelope_json["key-name"] if "key-name" in envelope_json else None'))
